@@ -315,6 +315,10 @@ func (c *VC) ghostBuiltin(st *State, name string, call *ast.CallExpr) []*Term {
 		blo := c.binop(token.ADD, mkField(b, "sl_off"), mkField(b, "sl_len"), it)
 		bhi := c.binop(token.ADD, mkField(b, "sl_off"), mkField(b, "sl_cap"), it)
 		return []*Term{mkOr(mkNot(mkEq(mkField(v, "sl_base"), mkField(b, "sl_base"))), c.cmp(token.LEQ, vhi, blo, it), c.cmp(token.LEQ, bhi, vlo, it), mkEq(mkField(v, "sl_len"), c.idxLit(0)))}
+	case "identical":
+		// the two values are the same value of the model (for strings: same snapshot, which
+		// implies equal content; used where an uninterpreted spec function must be congruent)
+		return []*Term{mkEq(c.eval(st, call.Args[0]), c.eval(st, call.Args[1]))}
 	case "bytesEq":
 		a := c.eval(st, call.Args[0])
 		b := c.eval(st, call.Args[1])
@@ -428,6 +432,50 @@ func (c *VC) runContract(st *State, K *FuncInfo, run *contractRun) {
 	c.popFrame()
 }
 
+// functionalResult: K is a contract of the shape `ensures(r == E); ...` without requires and
+// modifies clauses before it; returns E evaluated in st (parameters already bound), else nil.
+func (c *VC) functionalResult(st *State, K *FuncInfo) *Term {
+	res := resultObjs(K)
+	if len(res) != 1 || K.Decl.Body == nil {
+		return nil
+	}
+	v := c.prog.view(K.Pkg)
+	for _, stmt := range K.Decl.Body.List {
+		es, ok := stmt.(*ast.ExprStmt)
+		if !ok {
+			continue
+		}
+		call, ok := es.X.(*ast.CallExpr)
+		if !ok {
+			continue
+		}
+		id, ok := call.Fun.(*ast.Ident)
+		if !ok {
+			continue
+		}
+		switch id.Name {
+		case "requires", "modifiesTail", "modifiesElems", "modifiesPtr", "modifiesMap", "modifiesAll":
+			return nil
+		case "ensures":
+			be, ok := ast.Unparen(call.Args[0]).(*ast.BinaryExpr)
+			if !ok || be.Op != token.EQL {
+				return nil
+			}
+			x, ok := ast.Unparen(be.X).(*ast.Ident)
+			if !ok || v.objOf(x) != types.Object(res[0]) {
+				return nil
+			}
+			c.pushFrame(K)
+			c.ghost++
+			t := c.eval(st, be.Y)
+			c.ghost--
+			c.popFrame()
+			return t
+		}
+	}
+	return nil
+}
+
 func (c *VC) callByContract(st *State, fi *FuncInfo, args []*Term, call *ast.CallExpr) []*Term {
 	K := fi.Contract
 	c.callees[fi.Name] = true
@@ -442,6 +490,14 @@ func (c *VC) callByContract(st *State, fi *FuncInfo, args []*Term, call *ast.Cal
 		}
 	}
 	ctext := exprText(c.prog.fset, call.Fun)
+	if c.quantDepth > 0 {
+		// under a binder the usual "fresh result + facts" encoding cannot be used (the facts would
+		// mention the bound variable). A contract whose first clause defines the single result,
+		// ensures(r == E), and that declares no effects, is used as that definition.
+		if t := c.functionalResult(pre, K); t != nil {
+			return []*Term{t}
+		}
+	}
 	run := &contractRun{phase: 1}
 	run.onReq = func(text string, pos token.Pos, g *State, t *Term) {
 		if c.ghost > 1 {
@@ -523,9 +579,18 @@ func (c *VC) callByContract(st *State, fi *FuncInfo, args []*Term, call *ast.Cal
 // its ensures become facts. The lemma body must consist of requires/ensures and ghost
 // definitions only.
 func (c *VC) callLemma(st *State, L *FuncInfo, args []*Term, call *ast.CallExpr) []*Term {
+	if c.ghost > 0 && !c.allowLemma {
+		// a lemma used inside the body of another lemma that is itself being used as a contract:
+		// proof steps of the callee are irrelevant to its requires/ensures
+		return nil
+	}
 	c.callees[L.Name] = true
 	if len(L.Dir.Props) == 0 {
 		c.assumptions["UNVERIFIED lemma used (no props tag, never proved): "+L.Name] = true
+	}
+	if c.allowLemma {
+		c.allowLemma = false
+		defer func() { c.allowLemma = true }()
 	}
 	ps := paramObjs(L)
 	pre := st.clone()
@@ -535,6 +600,34 @@ func (c *VC) callLemma(st *State, L *FuncInfo, args []*Term, call *ast.CallExpr)
 		}
 	}
 	ctext := exprText(c.prog.fset, call.Fun)
+	if L != c.fn && L.Dir.CyclicLemma && c.fn.Dir != nil && c.fn.Dir.CyclicLemma {
+		c.unsupportedf(call.Pos(), "circular use of lemma %s", L.Name)
+		return nil
+	}
+	if L == c.fn {
+		// inductive use of the lemma being proved: sound only with a measure that strictly
+		// decreases and is bounded below
+		if L.Dir.Decreases == "" || c.entry == nil {
+			c.unsupportedf(call.Pos(), "recursive use of lemma %s without //@ decreases", L.Name)
+			return nil
+		}
+		ent := c.entry.clone()
+		ent.pc = st.pc
+		for i, p := range ps {
+			if i < len(c.entryArgs) {
+				ent.env[p] = c.entryArgs[i]
+			}
+		}
+		m0, err0 := c.evalDirective(ent, L.Dir.Decreases, L.Decl.Body.Lbrace+1)
+		m1, err1 := c.evalDirective(pre, L.Dir.Decreases, L.Decl.Body.Lbrace+1)
+		if err0 != nil || err1 != nil {
+			c.unsupportedf(call.Pos(), "lemma %s: cannot evaluate decreases clause %q: %v %v", L.Name, L.Dir.Decreases, err0, err1)
+			return nil
+		}
+		it := types.Typ[types.Int]
+		c.addObl("lemma-decreases", ctext+": "+L.Dir.Decreases, call.Pos(), st.pc,
+			mkAnd(c.cmp(token.LEQ, c.idxLit(0), m1, it), c.cmp(token.LSS, m1, m0, it)))
+	}
 	run := &contractRun{phase: 1}
 	run.onReq = func(text string, pos token.Pos, g *State, t *Term) {
 		c.addObl("lemma-pre", ctext+": "+text, call.Pos(), g.pc, t)
@@ -612,6 +705,7 @@ func (c *VC) verify() {
 	}
 	init := st.clone()
 	c.entry = init
+	c.entryArgs = entry
 	c.entryEnv = map[types.Object]*Term{}
 	for i, p := range ps {
 		if p.Name() != "" && p.Name() != "_" {
